@@ -181,7 +181,7 @@ func genBatch(r *kit.Rand, thorough bool) inBatch {
 			b.setDims = append(b.setDims, "zz-absent")
 		}
 		if k == 1 {
-			// a dimension named twice, as GroupByNode built it for groupBy('a', 'a') until fix a050cea: a hand-made header
+			// a dimension named twice, as GroupByNode built it for groupBy('a', 'a') until fix 6ba92e9: a hand-made header
 			// now (no in-tree producer), kept to tie echo_identity_up_to_dims to the real boundary
 			if len(b.setDims) == 0 {
 				b.setDims = []string{"dup"}
